@@ -3,6 +3,7 @@ CONSTANTS
   Denoms = {"eth"}
   Mods <- ModsStake
   AddrMode = "simple"
+  Stock = FALSE
   MaxTx = 4
   Fuel = 3
   Level = 2
